@@ -149,6 +149,18 @@ theorem step_shape (sw : Switches) (loadF : LoadF) (s : Stmt) (env : Env) (cfg :
     split
     · exact ⟨.loc rfl rfl rfl (by simp), by intro e c h; cases h⟩
     · exact ⟨.loc rfl rfl rfl (by simp [St.emit, cssOf]), by intro e c h; cases h; rfl⟩
+  | fail e => exact ⟨.loc rfl rfl rfl (by simp [step]), by intro e' c h; simp [step] at h⟩
+  | loadCssSpec url withs =>
+    simp only [step]
+    generalize hc0 : (if withs.isEmpty = true then Cfg.empty else ({ base := withs, layers := [], explicit := true } : Cfg)) = c0
+    cases hr : (loadF url c0 st).res with
+    | error e => exact ⟨.loaded url c0 rfl (by intro r h; cases h) (by simp), by intro e c h; cases h⟩
+    | ok r =>
+      obtain ⟨id, c1⟩ := r
+      simp only
+      split
+      · exact ⟨.loaded url c0 rfl (by intro r h; cases h) (by simp), by intro e c h; cases h⟩
+      · exact ⟨.loaded url c0 rfl (fun _ _ => ⟨_, hr⟩) (by simp), by intro e c h; cases h; rfl⟩
 
 
 /-! ### L1: a successful load leaves the active set as it found it -/
@@ -578,6 +590,16 @@ theorem step_fuel_err (sw : Switches) (loadF : LoadF) (s : Stmt) (env : Env) (cf
     simp only [step] at h
     repeat' split at h
     all_goals cases h
+  | fail e => simp only [step] at h; cases e <;> simp [ImpErr.toErr] at h
+  | loadCssSpec url withs =>
+    simp only [step] at h
+    generalize hc0 : (if withs.isEmpty = true then Cfg.empty else ({ base := withs, layers := [], explicit := true } : Cfg)) = c0 at h
+    cases hr : (loadF url c0 st).res with
+    | error e => simp only [hr] at h; cases h; exact ⟨url, c0, hr⟩
+    | ok r =>
+      obtain ⟨id, c1⟩ := r
+      simp only [hr] at h
+      split at h <;> cases h
 
 theorem evalStmts_nofuel (sw : Switches) (loadF : LoadF) (hR : Restores loadF) (A : List Ident) (hN : NoFuelErr loadF A) :
     ∀ (ss : List Stmt) (env : Env) (cfg : Cfg) (st : St), st.active = A →
@@ -850,6 +872,19 @@ theorem step_graph (sw : Switches) (loadF : LoadF) (hG : GraphOK loadF) (s : Stm
     split
     · exact ⟨hw, Nat.le_refl _, by intro e c h; cases h⟩
     · exact ⟨hw, Nat.le_refl _, by intro e c h; cases h; exact hb⟩
+  | fail e => exact ⟨hw, Nat.le_refl _, by intro e' c h; simp [step] at h⟩
+  | loadCssSpec url withs =>
+    simp only [step]
+    generalize hc0 : (if withs.isEmpty = true then Cfg.empty else ({ base := withs, layers := [], explicit := true } : Cfg)) = c0
+    have hg := hG url c0 st hw
+    cases hr : (loadF url c0 st).res with
+    | error e => exact ⟨hg.1, hg.2.1, by intro e c h; cases h⟩
+    | ok r =>
+      obtain ⟨id, c1⟩ := r
+      simp only
+      split
+      · exact ⟨hg.1, hg.2.1, by intro e c h; cases h⟩
+      · exact ⟨hg.1, hg.2.1, by intro e c h; cases h; exact envBelow_mono env _ _ hb hg.2.1⟩
 
 theorem evalStmts_graph (sw : Switches) (loadF : LoadF) (hG : GraphOK loadF) :
     ∀ (ss : List Stmt) (env : Env) (cfg : Cfg) (st : St), ModsWF st.mods → EnvBelow env st.mods.length →
